@@ -12,8 +12,17 @@ def build(case, graph=None, config=None):
     return base.mk_matcher(m, config if config is not None else case["config"])
 
 
+def run_decoy(case, matcher):
+    """A matcher object may be reused: when the case carries a 'decoy' trace it is matched first (a plain match() call, whose
+    results are discarded); the following fresh match() of the real trace must not be influenced by it."""
+    if case.get("decoy"):
+        base.pkg(matcher.match, base.to_path(case["decoy"]), clause="decoy-raised")
+
+
 def run_match(case, matcher=None, trace=None, **kw):
-    matcher = matcher or build(case)
+    if matcher is None:
+        matcher = build(case)
+        run_decoy(case, matcher)
     path = base.to_path(trace if trace is not None else case["trace"])
     states, idx = base.pkg(matcher.match, path, unique=case.get("unique", False), **kw)
     return matcher, states, idx
@@ -31,6 +40,7 @@ def apply_history(case, after=None, tqdm=None):
     ['cwd', k, nb_obs, max_dist]. Operations whose documented preconditions do not hold at run time are skipped.
     `after(matcher, op, states, idx, cur_len)` is called after every applied operation."""
     matcher = build(case)
+    run_decoy(case, matcher)
     path = base.to_path(case["trace"])
     unique = case.get("unique", False)
     cur = None
@@ -131,4 +141,12 @@ def mixed_case(draw, tier, ne_share=3, families=("simple", "simple_n", "distance
     case = draw(gen.match_case(max_nodes=sz["max_nodes"], max_len=sz["max_len"], min_len=min_len, graph_kw=graph_kw,
                                trace_kw=trace_kw, config_kw=ckw))
     case["gen"] = "general"
+    return case
+
+
+@st.composite
+def maybe_decoy(draw, case, share=3):
+    """With probability ~share/10 add a second, different trace on the same map that is matched first on the same matcher."""
+    if gen.chance(draw, share):
+        case["decoy"] = draw(gen.trace_on(case["graph"], min_len=1, max_len=max(2, len(case["trace"]) + 1)))
     return case
